@@ -8,7 +8,7 @@ use crate::opt::{run_script, steps_inner, ForcedPolicy, OptCfg, RunOut, WorsePol
 use crate::probe::{Decision, Expect};
 
 pub const TITLE: &str = "Moves are accepted according to the Metropolis rule";
-pub const RULE: &str = "part deterministic: cyclic scripts of forced outcomes on synthetic states (2..8 parameters, 1..20 loops, kT = 0 or 1e-3..10, with and without a finishing temperature or cooling ratio): better by 1e-300..1e100 => accepted, equal => accepted, undefined => rejected, worse at kT=0 => rejected; the outcome of every step is read off the next proposal (which state it derives from); steps whose outcome cannot be read (two consecutive proposals on one coordinate, or a move clamped to no change) are excluded. part frequencies: constant temperature (one loop, or several loops with kt_ratio=0), 8 parameters on [0,1] starting at 0.5 with max_step 1e-3 (never clamped), every proposal scripted worse by d; 12 fixed (d,kT) pairs with exp(-d/kT) in [0.02,0.98] including kT=1e-6 and kT=100, and generated pairs with d/kT log-uniform in [0.02,4] at kT log-uniform in [1e-6,100]; N counted trials per case (quick 2e5, thorough 2e6: a 6-sigma test then resolves an absolute bias of about 0.7% / 0.2%); accepted iff |p_hat - exp(-d/kT)| <= 6 sqrt(p(1-p)/N) + 1/N. Non-trivial = a frequency trial with 0.02<p<0.98, or a deterministic script in which all four kinds of step were resolved; distinct by hash of the case.";
+pub const RULE: &str = "part deterministic: cyclic scripts of forced outcomes on synthetic states (2..8 parameters, 1..20 loops, kT = 0 or 1e-3..10, with and without a finishing temperature or cooling ratio): better by 1e-300..1e100 => accepted, equal => accepted, undefined => rejected, worse at kT=0 => rejected; the outcome of every step is read off the next proposal (which state it derives from); steps whose outcome cannot be read (two consecutive proposals on one coordinate, or a move clamped to no change) are excluded. part frequencies: constant temperature by construction (a single inner loop, so that no cooling schedule is involved), 8 parameters on [0,1] starting at 0.5 with max_step 1e-3 (never clamped), every proposal scripted worse by d; 12 fixed (d,kT) pairs with exp(-d/kT) in [0.02,0.98] including kT=1e-6 and kT=100, and generated pairs with d/kT log-uniform in [0.02,4] at kT log-uniform in [1e-6,100]; N counted trials per case (quick 2e5, thorough 2e6: a 6-sigma test then resolves an absolute bias of about 0.7% / 0.2%); accepted iff |p_hat - exp(-d/kT)| <= 6 sqrt(p(1-p)/N) + 1/N. Non-trivial = a frequency trial with 0.02<p<0.98, or a deterministic script in which all four kinds of step were resolved; distinct by hash of the case.";
 
 pub fn assumptions() -> Vec<&'static str> {
     vec![
@@ -78,9 +78,13 @@ fn judge_deterministic(out: &RunOut, cfg: &OptCfg) -> Result<[u64; 4], String> {
                 }
             }
             (Some(r), Expect::Reject) => {
-                seen[3] += 1;
-                if outcome {
-                    return Err(format!("proposal #{} scores {} against the current {} at kT = 0 and was accepted", st.k, r, base));
+                // "never at kT = 0": judged while the temperature is the configured kt_start = 0, i.e. in the first
+                // inner loop; whether a zero temperature *stays* zero in later loops is C05's and C18's subject
+                if (st.k as u64) <= cfg.inner_eff().max(1) {
+                    seen[3] += 1;
+                    if outcome {
+                        return Err(format!("proposal #{} scores {} against the current {} at kT = 0 and was accepted", st.k, r, base));
+                    }
                 }
             }
             (Some(_), Expect::Unknown) => {}
@@ -94,9 +98,12 @@ fn judge_deterministic(out: &RunOut, cfg: &OptCfg) -> Result<[u64; 4], String> {
             let prev = &out.steps[k - 2];
             let cur = &out.steps[k - 1];
             let near = |a: &[f64], b: &[f64]| a.iter().zip(b.iter()).filter(|(x, y)| x.to_bits() != y.to_bits()).count() <= 1;
-            let other_world = match prev.expect {
-                Some(Expect::Accept) => prev.base.as_ref().map(|b| near(b, &cur.proposal)).unwrap_or(false),
-                Some(Expect::Reject) => near(&prev.proposal, &cur.proposal),
+            let first_loop = (prev.k as u64) <= cfg.inner_eff().max(1);
+            let other_world = match (prev.expect, prev.returned) {
+                (Some(Expect::Accept), _) => prev.base.as_ref().map(|b| near(b, &cur.proposal)).unwrap_or(false),
+                // a worse proposal kept at a nominal kT = 0 after the first loop is the schedule's (C05/C18) subject
+                (Some(Expect::Reject), Some(_)) if !first_loop => false,
+                (Some(Expect::Reject), _) => near(&prev.proposal, &cur.proposal),
                 _ => false,
             };
             if other_world {
@@ -174,7 +181,7 @@ pub const PAIRS: [(f64, f64); 12] = [
 
 fn freq_strat(_: &Ctx) -> BoxedStrategy<FreqCase> {
     // half of the cases use the fixed grid, half a generated ratio d/kT log-uniform in [0.02, 4] at a generated kT
-    (0usize..24, (-1.7..0.6f64).prop_map(|e| 10f64.powf(e)), (-6.0..2.0f64).prop_map(|e| 10f64.powf(e)), prop_oneof![Just(1u64), Just(4u64), Just(10u64)], any::<u64>())
+    (0usize..24, (-1.7..0.6f64).prop_map(|e| 10f64.powf(e)), (-6.0..2.0f64).prop_map(|e| 10f64.powf(e)), Just(1u64), any::<u64>())
         .prop_map(|(pair, x, kt, loops, seed)| FreqCase { pair: pair.min(12), x, kt, loops, seed })
         .boxed()
 }
